@@ -3,7 +3,7 @@
    Proofs.FieldProofs, followed by Print Assumptions. *)
 From Coq Require Import ZArith Znumtheory.
 Require Import Model.Base Model.Field Model.Ir Model.Propagate Model.FieldDispatch Model.FieldPow.
-Require Import Spec.FieldSpec Spec.DispatchSpec Proofs.FieldProofs Proofs.DispatchProofs Proofs.FieldPowProofs.
+Require Import Spec.FieldSpec Spec.DispatchSpec Proofs.FieldProofs Proofs.DispatchProofs Proofs.DispatchLoop Proofs.FieldPowProofs.
 Local Open Scope Z_scope.
 
 (* every operation except division: the mirror computes the documented value;
@@ -88,6 +88,27 @@ Theorem C16_dispatch_total : forall p, prime p -> 2 < p -> Z.log2 p < 2 ^ 64 ->
 Proof. exact dispatch_total. Qed.
 Print Assumptions C16_dispatch_total.
 
+(* the link between the code that runs and the function the dispatch theorems
+   are about (second audit).  The Rust runs the pass loop of Cfg::propagate_values
+   (mirror: propagate_lit = pass_loop over Model.Propagate.pv_expr, with its
+   `result || ...` short-circuits, fuel = number of nodes + 2); the theorems above
+   and below speak about the bottom-up lit_dispatch.  For EVERY closed expression
+   on which the bottom-up dispatch answers, the pass loop ends within its fuel in
+   the tree in which every node carries exactly the bottom-up constant
+   (Spec.DispatchSpec.annotated), the root included ... *)
+Theorem C16_pass_loop_reaches_dispatch : forall p e o,
+  lit_dispatch p e = Ok o ->
+  exists x, propagate_lit p e = Ok x /\ annotated p e x /\ expr_val x = o.
+Proof. exact propagate_lit_reaches_dispatch. Qed.
+Print Assumptions C16_pass_loop_reaches_dispatch.
+
+(* ... and it does answer for every prime field and all non-negative literals *)
+Theorem C16_pass_loop_total : forall p, prime p -> 2 < p -> Z.log2 p < 2 ^ 64 ->
+  forall e, lits_nonneg e ->
+  exists x o, propagate_lit p e = Ok x /\ lit_dispatch p e = Ok o /\ annotated p e x /\ expr_val x = o.
+Proof. exact propagate_lit_total. Qed.
+Print Assumptions C16_pass_loop_total.
+
 (* two field constants get no constant only for && and ||, for a zero divisor,
    or for a shift count that fits no machine word in either direction *)
 Theorem C16_dispatch_missing_constant_cases : forall p, prime p -> 2 < p -> Z.log2 p < 2 ^ 64 ->
@@ -167,6 +188,16 @@ Proof. vm_compute. repeat split; try reflexivity; intro; discriminate. Qed.
 
 (* non-vacuity: the hypotheses are met by a concrete field, and the defects
    repaired by the fix: commits stay repaired in the mirror *)
+(* the pass loop really iterates (one node is written per pass): three passes do not
+   suffice for a six-node expression, the fuel of propagate_lit does, and the root then
+   carries the bottom-up constant 3 * 4 + (-2) = 3 (mod 7) *)
+Example C16_pass_loop_witness :
+  pass_loop 3 7 (to_expr (LInfix IAdd (LInfix IMul (LNum 3) (LNum 4)) (LPrefix PNeg (LNum 2)))) = OutOfFuel /\
+  lit_dispatch 7 (LInfix IAdd (LInfix IMul (LNum 3) (LNum 4)) (LPrefix PNeg (LNum 2))) = Ok (Some (VField 3)) /\
+  exists x, propagate_lit 7 (LInfix IAdd (LInfix IMul (LNum 3) (LNum 4)) (LPrefix PNeg (LNum 2))) = Ok x /\
+            expr_val x = Some (VField 3).
+Proof. split; [vm_compute; reflexivity|]. split; [vm_compute; reflexivity|]. eexists. split; vm_compute; reflexivity. Qed.
+
 Example C16_witnesses :
   eval OMod 5 0 7 = Err EDivisionByZero /\
   eval OCompl 0 0 7 = Ok ((2 ^ 256 - 1) mod 7) /\
